@@ -154,7 +154,7 @@ Section Batch.
   Lemma batch_N4 nd : BatchInv nd -> wf_trace (n_cout nd).
   Proof. intros [st [_ [W _]]]. exact W. Qed.
 
-  Lemma batch_request_spec st st' acts : batch_request c st = (st', acts) ->
+  Lemma batch_request_spec st st' acts : batch_request n c st = (st', acts) ->
     b_window st' = b_window st /\ b_completing st' = b_completing st /\
     downs acts = [] /\ shuts acts = false /\ ~ In UCancel (ups acts).
   Proof.
@@ -209,7 +209,7 @@ Section Batch.
                          let '(ys, e) := chunks_from n [] (vz (b_window stA) ++ r) in (map VL B ++ ys, e))
                (Hterm1 : term_of cin1 = None /\ b_completing stA = false \/
                          term_of cin1 = Some DComplete /\ b_completing stA = true)
-               stB a (Hd : batch_drain n stA = (stB, a)) stC a3 (Hq : batch_request c stB = (stC, a3)),
+               stB a (Hd : batch_drain n stA = (stB, a)) stC a3 (Hq : batch_request n c stB = (stC, a3)),
                let cout1 := n_cout nd ++ downs (a ++ a3) in
                wf_trace cout1 /\
                (negb (shuts (a ++ a3)) = true -> n_cancelled nd = false /\
@@ -251,7 +251,7 @@ Section Batch.
       destruct (elems_of_snoc_none (n_cin nd) (DElem v) Tcin) as [Ex Tx].
       destruct v as [x|l].
       + match type of Hr with context [batch_drain n ?s] => destruct (batch_drain n s) as [st2 a2] eqn:Hd end.
-        destruct (batch_request c st2) as [st3 a3] eqn:Hq. inversion Hr; subst st' acts'; clear Hr.
+        destruct (batch_request n c st2) as [st3 a3] eqn:Hq. inversion Hr; subst st' acts'; clear Hr.
         rewrite Ci, Co, Ca, Al.
         match type of Hd with batch_drain n ?s = _ =>
           apply (Drain s (zs ++ [x]) (n_cin nd ++ [DElem (VZ x)])) with (stB := st2); auto end.
@@ -274,7 +274,7 @@ Section Batch.
         - destruct (elems_of_snoc_none _ DComplete T) as [E1 T1]. rewrite app_nil_r in E1. auto.
         - destruct (elems_of_snoc_some _ DComplete _ T) as [E1 T1]. auto. }
       destruct Tx as [Tx Ex].
-      destruct (batch_request c st') as [stC a3] eqn:Hq.
+      destruct (batch_request n c st') as [stC a3] eqn:Hq.
       assert (Hq' : stC = st' /\ a3 = []).
       { unfold batch_request in Hq. destruct (batch_drain_spec _ _ _ Hr) as [Hcomp _]. simpl in Hcomp.
         rewrite Hcomp in Hq. inversion Hq; auto. }
@@ -297,7 +297,7 @@ Section Batch.
       intros e' X. inversion X; subst. apply in_or_app. left. exact Er.
     - (* request *)
       match type of Hr with context [batch_drain n ?s] => destruct (batch_drain n s) as [st2 a2] eqn:Hd end.
-      destruct (batch_request c st2) as [st3 a3] eqn:Hq. inversion Hr; subst st' acts'; clear Hr.
+      destruct (batch_request n c st2) as [st3 a3] eqn:Hq. inversion Hr; subst st' acts'; clear Hr.
       rewrite Ci, Co, Ca, Al.
       match type of Hd with batch_drain n ?s = _ =>
         apply (Drain s zs (n_cin nd)) with (stB := st2); auto end.
